@@ -101,6 +101,18 @@ func (l sliceLoop) everyIteration(is func(ssa.Instruction) bool) bool {
 	return !pathExists(l.Elem.Parent(), l.Body, l.Test, nil, is)
 }
 
+// noEarlyExit reports whether the loop is left only through its test (elements exhausted): no path from the body
+// reaches a return of the function without going back through the loop test (no break, no return from the body).
+func (l sliceLoop) noEarlyExit() bool {
+	f := l.Elem.Parent()
+	for _, r := range realReturns(f) {
+		if pathExists(f, l.Body, r, nil, isOneOf(l.Test)) {
+			return false
+		}
+	}
+	return true
+}
+
 // A mapLoop is a `for k, v := range <map>` loop: Range/Next.
 type mapLoop struct {
 	X      ssa.Value
